@@ -24,6 +24,8 @@ pub struct SignOutcome<V: Fv> {
     pub first_fill: Option<Vec<u8>>,
     pub norm_rejects: usize,
     pub compress_fails: usize,
+    /// bytes drawn by the sampler during the call (if the generator was recording)
+    pub recorded: Option<Vec<u8>>,
 }
 
 /// Circuit breaker: every no-progress verdict costs the randomness of 1000 honest attempts.
@@ -46,6 +48,7 @@ pub fn sign_scripted<V: Fv>(msg: &[u8], sk: &V::Sk, rng: ScriptedRng, log_sample
             first_fill: None,
             norm_rejects: 0,
             compress_fails: 0,
+            recorded: None,
         };
     }
     let rc = Rc::new(RefCell::new(rng));
@@ -74,6 +77,7 @@ pub fn sign_scripted<V: Fv>(msg: &[u8], sk: &V::Sk, rng: ScriptedRng, log_sample
         first_fill: r.first_fill.clone(),
         norm_rejects,
         compress_fails,
+        recorded: r.record.clone(),
     }
 }
 
